@@ -101,7 +101,8 @@ pub fn program(rng: &mut Rng, profile: Profile) -> Generated {
         let mut decl = Vec::new();
         for r in 0..nregs {
             let w = if rng.chance(1, 12) { 0 } else { *rng.pick(&WIDTHS[1..]) };
-            let rname = format!("r{}", r);
+            // now and then a name so long that the register does not fit on a line of the state dump by itself
+            let rname = if rng.chance(1, 12) { format!("r{}_{}", r, "x".repeat(rng.range(40, 75) as usize)) } else { format!("r{}", r) };
             // defaults: a fitting constant, an unsized constant that does NOT fit the register (it must be truncated),
             // a negated constant, or a constant expression of the register's width
             let dflt = match rng.below(5) {
@@ -227,6 +228,10 @@ pub fn program(rng: &mut Rng, profile: Profile) -> Generated {
                         }
                     }
                     "mem_writebit" if writebit_zero => GExpr::Const(0, W::Unl, 0),
+                    // stores of zero, and of small values whose upper bytes are zero: bytes that are written count as used
+                    // even when the value stored is what a read of never-used memory would have returned
+                    "mem_input" if rng.chance(1, 4) => GExpr::Const(*rng.pick(&[0u128, 0, 1, 0xff00, 0x1_0000_0000][..]), W::Unl, 1),
+                    "mem_writebit" if rng.chance(1, 3) => GExpr::Const(1, W::Unl, 0),
                     _ => if rng.chance(1, 2) { varying(rng, &mut sc, w, depth) } else { gen(rng, &mut sc, W::Bits(w), depth) },
                 };
                 stmts.push(Stmt::Assign(vec![name.to_string()], e));
